@@ -1,7 +1,17 @@
 """D2 scenario engine: small multi-threaded programs on the REAL channels under the deterministic
 scheduler (harness/sched, hook H1), many seeded schedules per program, judged by the scenario
 runner's property monitors.  Model-free: this is the implementation-side search for a failing
-schedule (DESIGN §6) and never stands in for a theorem."""
+schedule (DESIGN §6) and never stands in for a theorem.
+
+Flavour families (harness/sched/src/bin/scen.rs, src/scenmods/{spmc,topic}.rs):
+  point-to-point, sync API     spsc mpscb mpscu mpmcb mpmcu spscrv mpscrv mpmcrv
+  point-to-point, async API    <base>a: the threads use the async handles through sched::block_on; ops
+                               sc / rc (poll once, drop), rp (re-poll with another waker); some threads
+                               use the sync handle of the same channel (labels PS: / CS:)
+  broadcast                    spmc (sync + a few async threads), spmca
+  pub/sub                      topic, topica   (need hook H2-topic, docs/fixes/hook_H2_topic.diff; without it
+                               the runner answers `ok skipped=no-hook`)
+A FAIL line may carry several clause ids (`FAIL C05:deadlock,C06:missed-wake ...`): one violation each."""
 from .flow import Engine
 
 FLAVOURS = {
@@ -15,6 +25,24 @@ FLAVOURS = {
     "mpscrv": (2, 1, [0]),
     "mpmcrv": (2, 2, [0]),
 }
+SYNC_P2P = list(FLAVOURS)
+ASYNC_P2P = [f + "a" for f in SYNC_P2P]
+for _f in SYNC_P2P:
+    FLAVOURS[_f + "a"] = FLAVOURS[_f]
+FLAVOURS.update({
+    # broadcast: 1 producer, up to 3 consumers
+    "spmc": (1, 3, [1, 2, 3]),
+    "spmca": (1, 3, [1, 2, 3]),
+    # topic: up to 2 publisher threads, up to 2 receiver threads; cap = mailbox capacity
+    "topic": (2, 2, [1, 2, 8, 8]),
+    "topica": (2, 2, [1, 2, 8, 8]),
+})
+
+# Cancelling ops are generated only where a cancelled future is specified to be harmless in the tree
+# as it is (recorded findings: F-31 rendezvous RecvFuture::drop destroys a handed-over value; F-11 mpsc
+# bounded wakes one async sender per publication, a cancelled one does not pass the wake on):
+NO_RECV_CANCEL = {"spscrva", "mpscrva", "mpmcrva"}          # no rc / async rt
+NO_SEND_CANCEL_MULTI = {"mpscba"}                           # sc only with a single producer thread
 
 
 class SchedEngine(Engine):
@@ -35,10 +63,15 @@ class SchedEngine(Engine):
     def runs(self, tier):
         return 30 if tier == "quick" else 400
 
+    # ------------------------------------------------------------------ corpus
     def corpus(self):
         f = self.flavour
         cap = FLAVOURS[f][2][0]
         base = []
+        if f in CORPUS:
+            return list(CORPUS[f])
+        if f in ASYNC_P2P:
+            return self._corpus_async(f)
         if FLAVOURS[f][1] >= 2:
             # the shapes that exposed F-01 / F-02 / F-08
             base.append("%s %d 60 7 | P: s s s | P: s ts | C: r D | C: tr rt D" % (f, max(cap, 2) if cap else 0))
@@ -48,8 +81,32 @@ class SchedEngine(Engine):
             base.append("%s %d 60 10 | P: s ts s s | C: rt r D" % (f, cap))
         return base
 
+    def _corpus_async(self, f):
+        maxp, maxc, caps = FLAVOURS[f]
+        cap = caps[0]
+        rv = f in NO_RECV_CANCEL
+        if maxc >= 2:
+            # a woken-then-dropped async receive next to a parked sync receiver (the wake must be passed on);
+            # two pending senders of which the woken one is dropped un-polled (cap >= 2: the slot stays free
+            # and the only receiver stays alive but idle, op K)
+            return ["%s %d 120 7 | PS: s s | CS: r r | C: %s" % (f, cap, "r" if rv else "rw"),
+                    "%s %d 120 8 | P: s s sw | P: s | CS: r %s" % (f, max(cap, 2) if cap else 0, "K" if f == "mpmcba" else "D")]
+        if maxp >= 2:
+            # the last sender leaves while the async receiver registers; re-poll with another waker
+            return ["%s %d 120 9 | P: s | P: | C: r r D" % (f, cap),
+                    "%s %d 120 10 | P: s s | PS: s | C: rp rp %s D" % (f, cap, "r" if rv else "rw")]
+        return ["%s %d 120 11 | P: s s s | C: rp rp %s D" % (f, cap, "r" if rv else "rw"),
+                "%s %d 120 12 | P: s ts sw s | C: %s r D" % (f, cap, "r" if rv else "rt")]
+
+    # ------------------------------------------------------------------ generators
     def gen(self, rng, tier):
         f = self.flavour
+        if f in ("spmc", "spmca"):
+            return self._gen_spmc(rng, tier)
+        if f in ("topic", "topica"):
+            return self._gen_topic(rng, tier)
+        if f in ASYNC_P2P:
+            return self._gen_async(rng, tier)
         maxp, maxc, caps = FLAVOURS[f]
         cap = rng.pick(caps)
         np = 1 + rng.below(maxp)
@@ -66,6 +123,91 @@ class SchedEngine(Engine):
             parts.append("C: " + " ".join(ops))
         return "%s %d %d %d | %s" % (f, cap, self.runs(tier), 1 + rng.below(1 << 30), " | ".join(parts))
 
+    def _gen_async(self, rng, tier):
+        f = self.flavour
+        maxp, maxc, caps = FLAVOURS[f]
+        cap = rng.pick(caps)
+        np = 1 + rng.below(maxp)
+        nc = 1 + rng.below(maxc)
+        send_cancel = not (f in NO_SEND_CANCEL_MULTI and np > 1)
+        recv_cancel = f not in NO_RECV_CANCEL
+        parts = []
+        for _ in range(np):
+            n = 1 + rng.below(4)
+            if maxp > 1 and rng.chance(1, 4):
+                parts.append("PS: " + " ".join(rng.weighted([("s", 6), ("ts", 3)]) for _ in range(n)))
+                continue
+            w = [("s", 6), ("ts", 2)] + ([("sc", 2), ("sw", 2)] if send_cancel else [])
+            parts.append("P: " + " ".join(rng.weighted(w) for _ in range(n)))
+        for _ in range(nc):
+            n = rng.below(4)
+            if maxc > 1 and rng.chance(1, 3):
+                ops = [rng.weighted([("r", 5), ("tr", 2), ("rt", 2)]) for _ in range(n)]
+                label = "CS: "
+            else:
+                w = [("r", 4), ("tr", 2), ("rp", 3)] + ([("rc", 2), ("rw", 2), ("rt", 2)] if recv_cancel else [])
+                ops = [rng.weighted(w) for _ in range(n)]
+                label = "C: "
+            if f == "mpmcba" and rng.chance(1, 5):
+                ops.append("K")
+            elif rng.chance(5, 6):
+                ops.append("D")
+            parts.append(label + " ".join(ops))
+        return "%s %d %d %d | %s" % (f, cap, self.runs(tier), 1 + rng.below(1 << 30), " | ".join(parts))
+
+    def _gen_spmc(self, rng, tier):
+        f = self.flavour
+        _, maxc, caps = FLAVOURS[f]
+        cap = rng.pick(caps)
+        nc = 1 + rng.below(maxc)
+        asy = f == "spmca"
+        n = 2 + rng.below(4)
+        # one pending send future at a time (F-spmc-sendwaker: the sender has a single waker slot)
+        pw = [("s", 7), ("ts", 2)] + ([("sc", 1), ("sw", 1)] if asy else [])
+        plabel = "P: "
+        if not asy and rng.chance(1, 4):
+            plabel, pw = "PA: ", [("s", 7), ("ts", 2), ("sc", 1), ("sw", 1)]
+        parts = [plabel + " ".join(rng.weighted(pw) for _ in range(n))]
+        for _ in range(nc):
+            k = rng.below(4)
+            a = asy != rng.chance(1, 4)     # mostly the flavour's kind, sometimes the other one
+            label = ("C: " if a == asy else ("CA: " if a else "CS: "))
+            w = [("r", 5), ("tr", 2), ("rt", 2)] + ([("rc", 1), ("rw", 1), ("rp", 2)] if a else [])
+            ops = [rng.weighted(w) for _ in range(k)]
+            ops.append(rng.weighted([("D", 6), ("dc", 3), ("cl", 2), ("", 1)]))
+            parts.append(label + " ".join(o for o in ops if o))
+        return "%s %d %d %d | %s" % (f, cap, self.runs(tier), 1 + rng.below(1 << 30), " | ".join(parts))
+
+    def _gen_topic(self, rng, tier):
+        f = self.flavour
+        maxp, maxc, caps = FLAVOURS[f]
+        cap = rng.pick(caps)
+        np = 1 + rng.below(maxp)
+        nc = 1 + rng.below(maxc)
+        asy = f == "topica"
+        parts = []
+        budget = 6
+        for _ in range(np):
+            n = 1 + rng.below(3)
+            budget -= n
+            label = "P: " if not rng.chance(1, 4) else ("PS: " if asy else "PA: ")
+            parts.append(label + " ".join("p%d" % (1 + rng.below(2)) for _ in range(n)))
+        for _ in range(nc):
+            a = asy != rng.chance(1, 4)
+            label = ("C: " if a == asy else ("CA: " if a else "CS: "))
+            ops = ["sub%d" % (1 + rng.below(2))]
+            for _ in range(rng.below(5)):
+                w = [("tr", 3), ("rt", 3), ("sub1", 1), ("sub2", 2), ("uns1", 1), ("uns2", 1), ("cln", 2), ("clk", 1)]
+                if a:
+                    w += [("rc", 1), ("rw", 1), ("rp", 2)]
+                ops.append(rng.weighted(w))
+            # `r` only as part of the final drain: a receiver without a matching publication would wait
+            # for the last sender anyway, which is what D does
+            ops.append(rng.weighted([("D", 7), ("cl", 1), ("rt", 1), ("", 1)]))
+            parts.append(label + " ".join(o for o in ops if o))
+        return "%s %d %d %d | %s" % (f, cap, self.runs(tier), 1 + rng.below(1 << 30), " | ".join(parts))
+
+    # ------------------------------------------------------------------ shrinking / evidence
     def split(self, line):
         parts = [p.strip() for p in line.split("|")]
         hdr = [parts[0]]
@@ -91,31 +233,69 @@ class SchedEngine(Engine):
 
     def monitor(self, line, out):
         if out.startswith("FAIL "):
-            clause = out.split()[1]
-            return [(clause, out[5:400])]
+            clauses = out.split()[1].split(",")
+            return [(c, out[5:400]) for c in clauses]
+        if out.startswith("ERROR bad scenario"):
+            # a shrunk candidate that is not a program any more (e.g. an op before the first thread label)
+            return []
         if not out.startswith("ok "):
             return [("%s:harness" % self.prop, out[:300])]
         return []
 
 
-def _engines(prop):
-    return [SchedEngine(f, prop) for f in FLAVOURS]
+# Corpus of the broadcast / pub-sub flavours: the interleaving-specific shapes named in C07 / C08
+CORPUS = {
+    # (1) the lagging receiver is dropped / closed while the producer is parked on the full ring and the other
+    #     receiver has caught up; (2) the sender goes away while receivers are parked on the empty ring
+    "spmc": ["spmc 1 120 21 | P: s s s | C: r r r D | C: dc",
+             "spmc 2 120 22 | P: s s | C: D | C: D | CA: r D"],
+    "spmca": ["spmca 1 120 23 | P: s s s | C: r r r D | C: cl",
+              "spmca 2 120 24 | P: s sw s | C: D | C: rp D | CS: rt D"],
+    # (1) a receiver clone is made while the last sender leaves; (2) a timed receive is woken by a delivery
+    #     right before the last sender leaves
+    "topic": ["topic 8 120 31 | P: p1 | C: sub1 sub2 cln D",
+              "topic 8 120 32 | P: p1 | P: p2 | C: sub1 rt rt D | C: sub2 cln rt tr D"],
+    "topica": ["topica 8 120 33 | P: p1 p1 | C: sub1 sub2 cln rp D | CS: sub1 cln D",
+               "topica 2 120 34 | P: p1 p2 | PS: p2 | C: sub1 rw rt D | CS: sub2 uns2 sub2 rt D"],
+}
+
+
+def _engines(prop, order=None):
+    names = list(FLAVOURS)
+    if order:
+        # flow.py's D3 search budget takes the first engines only: most relevant flavours first
+        names = [f for f in order if f in FLAVOURS] + [f for f in names if f not in order]
+    return [SchedEngine(f, prop) for f in names]
 
 
 _INFO = {"name": "D2-SCHED", "path": "harness/sched (scheduler + scen monitors), /repo hook H1 (traced sync backend), vlib/engines_sched.py",
          "kind": "implementation-side exploration of small scenario programs under a deterministic scheduler with property monitors (search aid for failing schedules; not a proof)"}
 _ASSUME = ["D2 scheduler runs are sequentially consistent (one thread at a time): weak-memory behaviours are not exhibited",
-           "timeouts fire by scheduler choice only for 20us recv_timeout calls (real Instant deadlines; no virtual time hook)"]
+           "timeouts fire by scheduler choice only for 20us recv_timeout calls (real Instant deadlines; no virtual time hook)",
+           "D2 async scenarios: futures are driven by sched::block_on (one task per thread) or polled by hand with a counting waker; crate::async_util::AtomicWaker and papaya are not traced (their operations are atomic steps for the scheduler)",
+           "D2 topic flavour runs only on a tree with hook H2-topic (docs/fixes/hook_H2_topic.diff); otherwise it reports `ok skipped=no-hook`"]
+
+_P2P = SYNC_P2P + ASYNC_P2P
+_SPMC = ["spmc", "spmca"]
+_TOPIC = ["topic", "topica"]
+
+_WHAT = {
+    "C01": (_P2P, None, "dup / phantom / lost / panic"),
+    "C02": (_P2P, None, "per-producer order at every consumer"),
+    "C04": (_P2P + _SPMC + _TOPIC, ["mpscua", "mpmcba", "mpscba", "spmc", "topic"],
+            "no value after Disconnected; Disconnected is observed once every sender finished (no-disc); no early Disconnected (spmc, topic)"),
+    "C05": (_P2P + _SPMC + _TOPIC, ["mpmcba", "spmc", "spmca", "mpmcb"],
+            "deadlock (a thread parked forever) and step-limit (livelock)"),
+    "C06": (ASYNC_P2P + _SPMC + _TOPIC, ["spsca", "mpmcba", "mpscba", "mpscua", "mpmcua", "spmca"],
+            "missed-wake: a thread stuck inside block_on (its waker is never invoked) after cancelled / re-polled futures; cancel-swallowed-wake: any thread (sync or async) stuck after a pending or woken future was dropped; mixed sync+async handles"),
+    "C07": (_SPMC, None, "broadcast order / gap / dup per consumer, Disconnected only after the view is drained, backpressure released when a lagging consumer is dropped or closed"),
+    "C08": (_TOPIC, None, "topic routing (only subscribed topics, publish order, at most once, nothing lost below capacity), Disconnected iff every sender handle is gone and the mailbox drained"),
+    "C09": (SYNC_P2P + ASYNC_P2P, None, "drop counters: leak / double drop at teardown (also for cancelled send futures)"),
+}
 
 PROPS = {
-    p: {"engines": _engines(p), "assumptions": _ASSUME,
-        "covers": "D2 schedule exploration with monitors on spsc/mpsc/mpmc bounded, unbounded and rendezvous (sync API): " + what,
+    p: {"engines": [e for e in _engines(p, order) if e.flavour in fl], "assumptions": _ASSUME,
+        "covers": "D2 schedule exploration with monitors on spsc/mpsc/mpmc bounded, unbounded and rendezvous (sync and async API, mixed handles), spmc broadcast and topic pub/sub: " + what,
         "engine_info": _INFO}
-    for p, what in {
-        "C01": "dup / phantom / lost / panic",
-        "C02": "per-producer order at every consumer",
-        "C04": "no value after Disconnected",
-        "C05": "deadlock (a thread parked forever) and step-limit (livelock)",
-        "C09": "drop counters: leak / double drop at teardown",
-    }.items()
+    for p, (fl, order, what) in _WHAT.items()
 }
